@@ -120,16 +120,18 @@ func equalTables(a, b cellTable) bool {
 }
 
 type walRunner struct {
-	c      *walCase
-	rng    *rand.Rand
-	cells  map[string]cellConc
-	parts  int
-	root   string
-	dir    string
-	rec    *crashfs.Recorder
-	res    *walResult
-	images []walImage
-	nimg   int
+	c        *walCase
+	rng      *rand.Rand
+	cells    map[string]cellConc
+	parts    int
+	root     string
+	dir      string
+	rec      *crashfs.Recorder
+	res      *walResult
+	images   []walImage
+	nimg     int
+	dropKeys map[string]bool
+	stepDone map[int]int // history step -> number of the last data event it produced
 }
 
 func (r *walRunner) point(k string, w int64) engx.Pt {
@@ -177,11 +179,28 @@ func (r *walRunner) readAll(e *engx.Env) (cellTable, error) {
 func (r *walRunner) expAfter(i int) cellTable {
 	t := cellTable{}
 	for j := 0; j <= i && j < len(r.c.Hist); j++ {
-		if r.c.Hist[j].A == "Write" {
+		switch r.c.Hist[j].A {
+		case "Write":
 			t[r.c.Hist[j].K] = r.c.Hist[j].W
+		case "Drop":
+			for k := range r.dropKeys {
+				delete(t, k)
+			}
 		}
 	}
 	return t
+}
+
+// proj removes the cells of the droppable measurement (used while a DROP MEASUREMENT is in flight:
+// those cells may be present with their last value or absent; everything else is judged as usual)
+func (r *walRunner) proj(t cellTable) cellTable {
+	o := cellTable{}
+	for k, v := range t {
+		if !r.dropKeys[k] {
+			o[k] = v
+		}
+	}
+	return o
 }
 
 // ---- as-implemented recovery model (known findings F-C01-1 / F-C01-2) ---------------------------
@@ -246,6 +265,13 @@ func (r *walRunner) walFilesAt(events []crashfs.Event, stepOfWalWrite map[int]in
 func (r *walRunner) committedUpTo(flushRenames map[int][]int, n int) int {
 	c := -1
 	for st := range r.c.Hist {
+		if r.c.Hist[st].A == "Drop" {
+			// a finished DROP MEASUREMENT has flushed everything before it
+			if end, ok := r.stepDone[st]; ok && end <= n && st > c {
+				c = st
+			}
+			continue
+		}
 		if r.c.Hist[st].A != "Flush" {
 			continue
 		}
@@ -395,6 +421,28 @@ func runWalCase(c *walCase, root string) (res walResult) {
 	for i, k := range ks {
 		r.cells[k] = cm[i%len(cm)]
 	}
+	r.dropKeys = map[string]bool{}
+	r.stepDone = map[int]int{}
+	hasDrop := false
+	for _, st := range c.Hist {
+		if st.A == "Drop" {
+			hasDrop = true
+		}
+	}
+	if hasDrop {
+		// the specification's DropKeys = {"k3"}: k3 lives in measurement m2, everything else in m
+		other := []cellConc{{"m", "a", 1, "f1"}, {"m", "a", 2, "f1"}, {"m", "b", 1, "f1"}}
+		j := 0
+		for _, k := range ks {
+			if k == "k3" {
+				r.cells[k] = cellConc{"m2", "a", 1, "f1"}
+				r.dropKeys[k] = true
+			} else {
+				r.cells[k] = other[j%len(other)]
+				j++
+			}
+		}
+	}
 	r.dir = filepath.Join(root, fmt.Sprintf("w%d", c.ID))
 	imgRoot := filepath.Join(root, fmt.Sprintf("w%d-img", c.ID))
 	defer os.RemoveAll(r.dir)
@@ -454,7 +502,7 @@ func runWalCase(c *walCase, root string) (res walResult) {
 		case ev.Op == "rename" && (ev.Class == "init" || ev.Class == "tssp"):
 			res.Tev = append(res.Tev, map[string]interface{}{"ev": "FlushRename"})
 		}
-		if ev.Op == "rename" && curStep >= 0 && c.Hist[curStep].A == "Flush" {
+		if ev.Op == "rename" && curStep >= 0 && curStep < len(c.Hist) && (c.Hist[curStep].A == "Flush" || c.Hist[curStep].A == "Drop") {
 			flushRenames[curStep] = append(flushRenames[curStep], ev.N)
 		}
 		if !take(ev) {
@@ -490,10 +538,27 @@ func runWalCase(c *walCase, root string) (res walResult) {
 				e.IndexFlush()
 			}
 		case "Flush":
+			mark := len(res.Tev)
 			res.Tev = append(res.Tev, map[string]interface{}{"ev": "FlushSwitch"})
 			e.Flush()
-			res.Tev = append(res.Tev, map[string]interface{}{"ev": "FlushEnd"})
+			if len(res.Tev) == mark+1 {
+				res.Tev = res.Tev[:mark] // nothing to flush (empty memtable): ForceFlush was a no-op, not a spec action
+			} else {
+				res.Tev = append(res.Tev, map[string]interface{}{"ev": "FlushEnd"})
+			}
+		case "Drop":
+			inflight = true
+			if err := e.Eng.DropMeasurement(engx.DB, engx.RP, "m2_0000", []uint64{engx.ShardID}); err != nil {
+				res.Infra = "drop measurement: " + err.Error()
+				return
+			}
+			inflight = false
+			delete(seenSeries, "m2/a")
 		}
+		r.stepDone[i] = r.rec.LastN()
+	}
+	if hasDrop {
+		res.Tev = nil // the trace specification does not model DROP MEASUREMENT: no Mode C for these runs
 	}
 	curStep = len(c.Hist) // everything acknowledged
 	allEvents := r.rec.Stop()
@@ -579,10 +644,23 @@ func runWalCase(c *walCase, root string) (res walResult) {
 			accept = []cellTable{r.expAfter(st - 1)}
 		default:
 			accept = []cellTable{r.expAfter(st)}
-			if c.Hist[st].A == "Flush" {
-				accept = []cellTable{r.expAfter(st)}
-			}
 		}
+		inDrop := st >= 0 && st < len(c.Hist) && c.Hist[st].A == "Drop" && img.inflight
+		fullGot := got
+		if inDrop {
+			// the cells of the measurement being dropped may still be there (with their last value) or be gone
+			before := r.expAfter(st - 1)
+			for k := range r.dropKeys {
+				if v, ok := got[k]; ok && v != before[k] {
+					r.fail("%s: cell %s of the measurement being dropped recovered as %d, last acknowledged %d", label, k, v, before[k])
+					res.At = img.at
+					return
+				}
+			}
+			got = r.proj(got)
+			accept = []cellTable{r.proj(before)}
+		}
+		_ = fullGot
 		ok := false
 		for _, a := range accept {
 			if equalTables(got, a) {
@@ -594,6 +672,9 @@ func runWalCase(c *walCase, root string) (res walResult) {
 			cm := r.committedUpTo(flushRenames, img.at)
 			pred, stale := r.rrReplay(files, order, r.expAfter(cm), cm)
 			ideal := r.idealReplay(files, r.expAfter(cm), cm)
+			if inDrop {
+				pred, ideal = r.proj(pred), r.proj(ideal)
+			}
 			if equalTables(got, pred) && inTables(ideal, accept) && (stale || r.parts >= 2) {
 				id := "F-C01-1"
 				if stale {
@@ -658,7 +739,12 @@ func runWalCase(c *walCase, root string) (res walResult) {
 				c = len(r.c.Hist)
 			}
 			pred3, stale3 := r.rrReplay(files, order, base, c)
-			ideal3 := r.idealReplay(files, base, c)
+			idealBase := base
+			if renamed {
+				// the repaired model starts from what a correct first recovery would have committed
+				idealBase = accept[len(accept)-1]
+			}
+			ideal3 := r.idealReplay(files, idealBase, c)
 			if equalTables(got3, pred3) && inTables(ideal3, accept) && (stale3 || r.parts >= 2) {
 				id := "F-C01-1"
 				if stale3 {
